@@ -1,4 +1,4 @@
-\* generation (C16, simulation): random (base kernel, position, operator) over all seven seeds and
+\* generation (C16, simulation): random (base kernel, position, operator) over all eight seeds and
 \* all valid structures with up to 5 nodes (declarations, uses, if/else, plain loops with
 \* break/continue, several header variants), punctuator AND word replacements
 SPECIFICATION Spec
@@ -10,7 +10,7 @@ CONSTANTS
   MaxDecor = 3
   DefaultHdr = "lt"
   Seeds <- MCSeeds
-  SeedIdx = {1,2,3,4,5,6,7}
+  SeedIdx = {1,2,3,4,5,6,7,8}
   Puncts <- MCPuncts
   Words <- MCWords
   Brackets <- MCBrackets
